@@ -54,29 +54,43 @@ def report(ctx, rej, failures):
 
 
 def run(ctx):
-    # 1. design-level model check + statistics of the antecedents (anti-vacuity)
+    from concurrent.futures import ThreadPoolExecutor
+    # 1. design-level model check + statistics of the antecedents (anti-vacuity); 2. pool
+    #    quick: side by side (2 + 1 + 1 TLC workers); thorough: one after the other (4 workers each)
     cfgs = ["MC_AbiCodec_q_C10"] if ctx.quick else ["MC_AbiCodec_d1_C10", "MC_AbiCodec_d2_C10", "MC_AbiCodec_d3_C10"]
     stats = {}
-    for c in cfgs:
-        mc = ctx.tlc("MC_AbiCodec", c, workers=4, xss="64m", xmx="6g", timeout=3000)
-        if mc.violated:
-            m = abigen.re.search(r'"FAILED-FACTS", (\{[^}]*\}), "(.*)">>', mc.out)
-            ctx.report("model:%s:%s" % (c, m.group(1) if m else mc.violated),
-                       "AbiCodec.tla: the classification is unsound for a type tree (counterexample)",
-                       {"cfg": c, "failed": m.group(1) if m else None, "type": m.group(2).replace('\\"', '"') if m else None})
-    st = ctx.tlc("MC_AbiCodec", "MC_AbiCodec_stats_q" if ctx.quick else "MC_AbiCodec_stats_d1", workers=1, xss="64m", count=False)
-    sj = st.printed("STATS")
-    if not sj or sj[0]["trivial_enc"] == 0 or sj[0]["trivial_dec"] == 0 or sj[0]["memid_eq_not_trivial_enc"] == 0:
-        raise ToolError("vacuous universe: %s" % sj)
-    stats["universe_" + ("q" if ctx.quick else "d1")] = sj[0]
-    if not ctx.quick:
+
+    def model_check(workers):
+        for c in cfgs:
+            mc = ctx.tlc("MC_AbiCodec", c, workers=workers, xss="64m", xmx="6g", timeout=3000)
+            if mc.violated:
+                m = abigen.re.search(r'"FAILED-FACTS", (\{[^}]*\}), "(.*)">>', mc.out)
+                ctx.report("model:%s:%s" % (c, m.group(1) if m else mc.violated),
+                           "AbiCodec.tla: the classification is unsound for a type tree (counterexample)",
+                           {"cfg": c, "failed": m.group(1) if m else None, "type": m.group(2).replace('\\"', '"') if m else None})
+
+    def statistics():
+        st = ctx.tlc("MC_AbiCodec", "MC_AbiCodec_stats_q" if ctx.quick else "MC_AbiCodec_stats_d1", workers=1, xss="64m", count=False)
+        sj = st.printed("STATS")
+        if not sj or sj[0]["trivial_enc"] == 0 or sj[0]["trivial_dec"] == 0 or sj[0]["memid_eq_not_trivial_enc"] == 0:
+            raise ToolError("vacuous universe: %s" % sj)
+        stats["universe_" + ("q" if ctx.quick else "d1")] = sj[0]
+
+    if ctx.quick:
+        with ThreadPoolExecutor(max_workers=2) as ex:
+            f1, f2 = ex.submit(model_check, 2), ex.submit(statistics)
+            recs = abigen.gen_pool(ctx)
+            f1.result()
+            f2.result()
+    else:
+        model_check(4)
+        statistics()
         for mname in MUTANTS:
             r = ctx.tlc("MC_AbiCodec", "MC_AbiCodec_mut_" + mname, workers=2, xss="64m", count=False, timeout=1200)
             stats["mutant_" + mname] = "counterexample" if r.violated else "NOT DETECTED"
             if not r.violated:
                 raise ToolError("binding failure: classification mutant %s passes the model check" % mname)
-    # 2. pool
-    recs = abigen.gen_pool(ctx)
+        recs = abigen.gen_pool(ctx)
     ncls = {"trivial_enc": sum(1 for r in recs if r["cls"]["te"]), "trivial_dec": sum(1 for r in recs if r["cls"]["td"]),
             "memid_eq": sum(1 for r in recs if r["cls"]["ideq"]), "memid_eq_not_trivial_enc": sum(1 for r in recs if r["cls"]["ideq"] and not r["cls"]["te"])}
     if ncls["trivial_enc"] == 0 or ncls["trivial_dec"] == 0:
